@@ -801,15 +801,23 @@ func (s *session) closeLocked() error {
 }
 
 func (s *session) readDisconnected(oldConn net.Conn, err error) {
-	status := s.getStatus()
-	verifGate("disc.load", s)
-	switch status {
-	case statusPassiveClosed, statusActiveClosed, statusPassiveClosing:
-		return
-	case statusActiveClosing:
-	default:
-		s.changeStatus(statusPassiveClosing)
-		verifGate("disc.store", s)
+	var status int32
+	for {
+		status = s.getStatus()
+		verifGate("disc.load", s)
+		switch status {
+		case statusPassiveClosed, statusActiveClosed, statusPassiveClosing:
+			return
+		case statusActiveClosing:
+		default:
+			// Only leave the status that was just read: if Close() (or a
+			// redial) changed it in the meantime, decide again on the new one.
+			if !s.tryChangeStatus(statusPassiveClosing, status) {
+				continue
+			}
+			verifGate("disc.store", s)
+		}
+		break
 	}
 
 	s.peer.sessHub.delete(s.ID())
